@@ -1461,9 +1461,11 @@ class PathSum(object):
                         return [(st, ('fn', ent, ('cls', ci)))]
                     return [(st, ('fn', ent, b))]
                 if isinstance(ent, tuple) and ent[0] == 'value' and (
-                        b[0] == 'obj' or not any(
+                        b[0] == 'obj' or not (any(
                             self.cg.fields.get((k, attr))
-                            for k in self.db.mro(ci))):
+                            for k in self.db.mro(ci)) or any(
+                                attr in k.attrs
+                                for k in self.db.subclasses(ci)))):
                     # class-level constant nothing stores on instances
                     v = self._literal(ent[1])
                     if v is not None:
@@ -1505,7 +1507,12 @@ class PathSum(object):
                             else t)
             kwargs = []
             for k, t in zip(e.keywords, items[1 + len(e.args):]):
-                kwargs.append((k.arg if k.arg is not None else '**', t))
+                if k.arg is None and t[0] == 'dict' and all(
+                        is_const(a) and isinstance(a[1], str)
+                        for a, _ in t[1]):
+                    kwargs.extend((a[1], v) for a, v in t[1])
+                else:
+                    kwargs.append((k.arg if k.arg is not None else '**', t))
             out.extend(self.apply(fn, args, dict(kwargs), s, fi, e))
         return out
 
@@ -1696,9 +1703,34 @@ class PathSum(object):
                 op('kw:' + k, v) for k, v in sorted(kwargs.items()))))]
         return self.opaque_call(fn, args, kwargs, st, fi, node, [])
 
+    def never_returns(self, target):
+        """Every path of the in-repo function ends in a raise."""
+        cache = self.__dict__.setdefault('_noreturn', {})
+        if target not in cache:
+            cache[target] = False       # recursion guard
+            if isinstance(target.node, ast.Lambda) or any(
+                    isinstance(n, (ast.Yield, ast.YieldFrom))
+                    for n in ast.walk(target.node)):
+                return False
+            try:
+                sub = PathSum(self.db, self.cg, implicit_raises=False,
+                              max_paths=400, max_depth=2)
+                sub._noreturn = cache
+                paths = sub.run(target)
+                cache[target] = bool(paths) and all(
+                    p.raises and len(p.outcome) == 3 for p in paths)
+            except AnalysisError:
+                cache[target] = False
+        return cache[target]
+
     def opaque_call(self, fn, args, kwargs, st, fi, node, targets):
         res = ('call', fn, tuple(args), tuple(sorted(kwargs.items())),
                next(self.uid))
+        if targets and all(t in getattr(self, 'pure', ()) for t in targets):
+            # a query without effects: a value, not an event; the same
+            # question asked twice has the same answer
+            return [(st, ('call', fn, tuple(args), tuple(sorted(
+                kwargs.items())), 0))]
         ev = Ev('call', node, fi, st, fn=fn, args=tuple(args),
                 kwargs=tuple(sorted(kwargs.items())), res=res,
                 targets=list(targets))
@@ -1710,6 +1742,13 @@ class PathSum(object):
                          'implicit')
             out.append((r, BOT))
         self.emit(st, ev)
+        if len(targets) == 1 and st.outcome is None and \
+                self.never_returns(targets[0]):
+            # the callee raises on every path of its own
+            st.outcome = ('raise', ('exc', None, next(self.uid)), node,
+                          'callee')
+            out.append((st, BOT))
+            return out
         out.append((st, res))
         return out
 
